@@ -655,6 +655,73 @@ func (c *Ctx) replyThenDelete() (nSends int, okDel bool, badDel []string) {
 									}
 								}
 							}
+						case *ssa.Parameter:
+							// the record is handed in by the caller: each caller that took it from the table (lookup, range, or
+							// stored it there itself) must delete it under that key around the call
+							pi := -1
+							for k, p := range sfn.Params {
+								if p == x {
+									pi = k
+								}
+							}
+							viaCaller := false
+							for _, cf := range c.RepoFuncs("service") {
+								for _, cb := range cf.Blocks {
+									for _, cins := range cb.Instrs {
+										call, isCall := cins.(*ssa.Call)
+										if !isCall || call.Call.StaticCallee() != sfn || pi < 0 || pi >= len(call.Call.Args) {
+											continue
+										}
+										var ckey ssa.Value
+										crec := false
+										switch ax := call.Call.Args[pi].(type) {
+										case *ssa.Extract:
+											switch t := ax.Tuple.(type) {
+											case *ssa.Lookup:
+												ckey, crec = t.Index, true
+											case *ssa.Next:
+												if rg, isRg := t.Iter.(*ssa.Range); isRg {
+													if _, isMap := rg.X.Type().Underlying().(*types.Map); isMap {
+														crec = true
+														for _, ref := range *t.Referrers() {
+															if e2, isE := ref.(*ssa.Extract); isE && e2.Index == 1 {
+																ckey = e2
+															}
+														}
+													}
+												}
+											}
+										case *ssa.Lookup:
+											ckey, crec = ax.Index, true
+										default:
+											for _, b2 := range cf.Blocks {
+												for _, i2 := range b2.Instrs {
+													if mu, isMU := i2.(*ssa.MapUpdate); isMU && mu.Value == call.Call.Args[pi] {
+														ckey, crec = mu.Key, true
+													}
+												}
+											}
+										}
+										if !crec {
+											continue
+										}
+										viaCaller = true
+										deleted := false
+										for _, nx := range cb.Instrs {
+											if del, isDel := isBuiltinCall(nx, "delete"); isDel && ckey != nil && sameValue(del.Call.Args[1], ckey) {
+												deleted = true
+											}
+										}
+										if deleted {
+											okDel = true
+										} else {
+											badDel = append(badDel, c.P.RelPos(s.Pos())+" (record handed in at "+c.P.RelPos(call.Pos())+")")
+										}
+									}
+								}
+							}
+							_ = viaCaller
+							continue
 						default:
 							// a message that this function stored into the outstanding table: record[k] = x
 							for _, b2 := range sfn.Blocks {
@@ -863,4 +930,37 @@ func (c *Ctx) consumedOnlyIfCompleted(rule string) {
 		R.Add(rule, shortFn(onResp)+" / (never reports 'handled')", c.P.RelPos(onResp.Pos()), report.Violated, "the matcher never reports a message as handled: responses are answered like ordinary traffic and completions are not consumed")
 	}
 	R.Require(rule, 1, "")
+}
+
+// sameValue: the same SSA value, or two loads of the same field chain with no store in between being assumed (keys
+// read twice from one message: record[msg.X.Seq] … delete(record, msg.X.Seq)).
+func sameValue(a, b ssa.Value) bool {
+	if a == b {
+		return true
+	}
+	la, okA := a.(*ssa.UnOp)
+	lb, okB := b.(*ssa.UnOp)
+	if !okA || !okB || la.Op != token.MUL || lb.Op != token.MUL {
+		return false
+	}
+	fa, okA := la.X.(*ssa.FieldAddr)
+	fb, okB := lb.X.(*ssa.FieldAddr)
+	for okA && okB && fa.Field == fb.Field {
+		if fa.X == fb.X {
+			return true
+		}
+		na, okA2 := fa.X.(*ssa.FieldAddr)
+		nb, okB2 := fb.X.(*ssa.FieldAddr)
+		if !okA2 || !okB2 {
+			// one more load level: p.F.G where p.F is a pointer
+			ua, okA3 := fa.X.(*ssa.UnOp)
+			ub, okB3 := fb.X.(*ssa.UnOp)
+			if okA3 && okB3 {
+				return sameValue(ua, ub)
+			}
+			return false
+		}
+		fa, fb = na, nb
+	}
+	return false
 }
